@@ -3,7 +3,8 @@
 
 stdin : {"mode": "tables"}                      -> the quadrature tables of the CURRENT source + numpy's line rules
         {"mode": "run", "cyls": [...], "trans": [...]}
-  cyl   = {"axis": [hex]*3, "base": [hex]*3, "r": hex, "h": hex, "unit": "mm"|"m",
+  cyl   = {"axis": [hex]*3, "base": [hex]*3, "r": hex, "h": hex, "unit": "mm"|"cm"|"m" (of base, rays and, unless
+           "r_unit" / "h_unit" say otherwise, of r and h),
            "rays": [{"s": [hex]*3, "n": [hex]*3}], "kinds": ["cheap", ...],
            "scalar_idx": [indices of rays to evaluate again one at a time with 0-d operands] (optional)}
   trans = {"cyl": cyl-without-rays, "kind": str, "sigma_s": hex, "sigma_a": hex, "density": hex   (mm^2, mm^2, 1/mm^3),
@@ -51,44 +52,81 @@ def make_cyl(c):
     from scippneutron.absorption import Cylinder
     u = c['unit']
     return Cylinder(sc.vector(uh(c['axis'])), sc.vector(uh(c['base']), unit=u),
-                    sc.scalar(float.fromhex(c['r']), unit=u), sc.scalar(float.fromhex(c['h']), unit=u))
+                    sc.scalar(float.fromhex(c['r']), unit=c.get('r_unit', u)),
+                    sc.scalar(float.fromhex(c['h']), unit=c.get('h_unit', u)))
 
 
 def vec_hex(var):
     return [[fh(c) for c in row] for row in np.asarray(var.values).reshape(-1, 3)]
 
 
+def err(ex):
+    return type(ex).__name__ + ': ' + str(ex)[:200]
+
+
 def run_cyl(c):
+    """mixed = radius / height given in another length unit than center_of_base (unit 'unit'): every entry point is
+    tried on its own (a refusal is recorded per entry point as <name>_error) and every returned quantity is converted
+    to the unit of center_of_base (scipp's .to(); the identity when the units agree) before it is written out"""
     out = {}
+    u = c['unit']
+    mixed = c.get('r_unit', u) != u or c.get('h_unit', u) != u
     try:
         cyl = make_cyl(c)
-        u = c['unit']
         out['stored'] = {'axis': vec_hex(cyl.symmetry_line)[0], 'base': vec_hex(cyl.center_of_base)[0],
-                         'r': fh(cyl.radius.value), 'h': fh(cyl.height.value)}
+                         'r': fh(cyl.radius.to(unit=u, copy=False).value), 'h': fh(cyl.height.to(unit=u, copy=False).value),
+                         'r_raw': fh(cyl.radius.value), 'h_raw': fh(cyl.height.value),
+                         'r_unit': str(cyl.radius.unit), 'h_unit': str(cyl.height.unit), 'base_unit': str(cyl.center_of_base.unit)}
         rays = c.get('rays', [])
         if rays:
-            s = sc.vectors(dims=['ray'], values=np.array([uh(r['s']) for r in rays]), unit=u)
-            n = sc.vectors(dims=['ray'], values=np.array([uh(r['n']) for r in rays]))
-            L = cyl.beam_intersection(s, n)
-            out['L'] = [fh(x) if math.isfinite(x) else repr(float(x)) for x in L.values]
-            out['L_unit'] = str(L.unit)
-            # the same rays one at a time (0-d operands) must give the same numbers
-            i = len(rays) // 2
-            L1 = cyl.beam_intersection(sc.vector(uh(rays[i]['s']), unit=u), sc.vector(uh(rays[i]['n'])))
-            out['L_scalar_check'] = [i, fh(L1.value)]
-            out['L_scalar_checks'] = []
-            for i in c.get('scalar_idx', []):
-                L1 = cyl.beam_intersection(sc.vector(uh(rays[i]['s']), unit=u), sc.vector(uh(rays[i]['n']))).value
-                out['L_scalar_checks'].append([i, fh(L1) if math.isfinite(L1) else repr(float(L1))])
+            try:
+                s = sc.vectors(dims=['ray'], values=np.array([uh(r['s']) for r in rays]), unit=u)
+                n = sc.vectors(dims=['ray'], values=np.array([uh(r['n']) for r in rays]))
+                L = cyl.beam_intersection(s, n)
+                out['L_unit'] = str(L.unit)
+                L = L.to(unit=u, copy=False)
+                out['L'] = [fh(x) if math.isfinite(x) else repr(float(x)) for x in L.values]
+                # the same rays one at a time (0-d operands) must give the same numbers
+                i = len(rays) // 2
+                L1 = cyl.beam_intersection(sc.vector(uh(rays[i]['s']), unit=u), sc.vector(uh(rays[i]['n']))).to(unit=u, copy=False)
+                out['L_scalar_check'] = [i, fh(L1.value)]
+                out['L_scalar_checks'] = []
+                for i in c.get('scalar_idx', []):
+                    L1 = cyl.beam_intersection(sc.vector(uh(rays[i]['s']), unit=u),
+                                               sc.vector(uh(rays[i]['n']))).to(unit=u, copy=False).value
+                    out['L_scalar_checks'].append([i, fh(L1) if math.isfinite(L1) else repr(float(L1))])
+            except Exception as ex:  # noqa: BLE001
+                if not mixed:
+                    raise
+                out.pop('L', None)
+                out['L_error'] = err(ex)
         out['quad'] = {}
+        out['quad_error'] = {}
         for kind in c.get('kinds', []):
-            p, w = cyl.quadrature(kind)
-            out['quad'][kind] = {'points': vec_hex(p), 'weights': [fh(x) for x in w.values],
-                                 'p_unit': str(p.unit), 'w_unit': str(w.unit)}
-        out['volume'] = fh(cyl.volume.value)
-        out['center'] = vec_hex(cyl.center)[0]
+            try:
+                p, w = cyl.quadrature(kind)
+                out['quad'][kind] = {'p_unit': str(p.unit), 'w_unit': str(w.unit),
+                                     'points': vec_hex(p.to(unit=u, copy=False)),
+                                     'weights': [fh(x) for x in w.to(unit=sc.Unit(u) ** 3, copy=False).values]}
+            except Exception as ex:  # noqa: BLE001
+                if not mixed:
+                    raise
+                out['quad_error'][kind] = err(ex)
+        try:
+            out['volume_unit'] = str(cyl.volume.unit)
+            out['volume'] = fh(cyl.volume.to(unit=sc.Unit(u) ** 3, copy=False).value)
+        except Exception as ex:  # noqa: BLE001
+            if not mixed:
+                raise
+            out['volume_error'] = err(ex)
+        try:
+            out['center'] = vec_hex(cyl.center.to(unit=u, copy=False))[0]
+        except Exception as ex:  # noqa: BLE001
+            if not mixed:
+                raise
+            out['center_error'] = err(ex)
     except Exception as ex:  # noqa: BLE001
-        out['error'] = type(ex).__name__ + ': ' + str(ex)[:200]
+        out['error'] = err(ex)
     return out
 
 
